@@ -66,8 +66,8 @@ def run(st, tier, seed):
     res.rule = ("accepted programs x {pil, des} x configurations (hash seed, 0-4 earlier compiles in the process, invocation directory); "
                 "non-trivial = program with an anonymous region; distinct by (source, configuration)")
     rng = core.rng_for(seed, "c18")
-    n = 12 if tier == "quick" else 300
-    nconf = 5 if tier == "quick" else 14
+    n = 10 if tier == "quick" else 300
+    nconf = 4 if tier == "quick" else 14
     drv = core.Driver() if st.driver_ok else None
     reqs, meta = [], []
     worker = os.path.join(core.HERE, "c18_worker.py")
